@@ -469,6 +469,30 @@ func fixedScripts() []scriptCase {
 			"CREATE TABLE aii (v TEXT, id INTEGER PRIMARY KEY AUTOINCREMENT)",
 			"CREATE TABLE aij (id INTEGER PRIMARY KEY, v TEXT)",
 		}},
+		// the text "check (" inside quotes, before and after real CHECK constraints of the same table
+		{"quoted-check-text-then-real-checks", []string{
+			`CREATE TABLE qc1 (id INTEGER PRIMARY KEY, note TEXT DEFAULT 'check (x)', a INTEGER CONSTRAINT qc1_a CHECK (a > 0), b INTEGER CHECK (b < 10))`,
+			`CREATE TABLE qc2 (id INTEGER PRIMARY KEY, "check (me)" INTEGER, a INTEGER, CONSTRAINT qc2_a CHECK (a > 0), CHECK ("check (me)" >= 0))`,
+			`CREATE TABLE qc4 (id INTEGER PRIMARY KEY, n1 TEXT DEFAULT 'CHECK (', n2 TEXT DEFAULT 'x check(y', a INTEGER CHECK (a <> 1), CONSTRAINT qc4_id CHECK (id > 0))`,
+		}},
+		{"real-checks-then-quoted-check-text", []string{
+			`CREATE TABLE qc3 (id INTEGER PRIMARY KEY, a INTEGER CHECK (a > 0), b INTEGER CONSTRAINT qc3_b CHECK (b <> 7), note TEXT DEFAULT 'CHECK (', c INTEGER CHECK (c > 1), "check (col)" TEXT, d INTEGER CONSTRAINT qc3_d CHECK (d IS NULL OR d > c))`,
+		}},
+		// line breaks inside names
+		{"newline-in-table-and-index-name", []string{
+			"CREATE TABLE \"multi\nline\" (id INTEGER PRIMARY KEY, v TEXT)",
+			"CREATE INDEX \"idx\nnl\" ON \"multi\nline\" (v DESC)",
+		}},
+		{"newline-in-referenced-column-name", []string{
+			"CREATE TABLE nlc (\"net\namount\" INTEGER NOT NULL, v TEXT, PRIMARY KEY (\"net\namount\"))",
+			"CREATE INDEX nlc_i ON nlc (v, \"net\namount\" DESC)",
+		}},
+		{"table-name-ends-with-check", []string{
+			`CREATE TABLE spellcheck (id INTEGER PRIMARY KEY, word TEXT NOT NULL)`,
+		}},
+		{"default-number-many-digits", []string{
+			`CREATE TABLE dmd (id INTEGER PRIMARY KEY, a REAL DEFAULT 3.14159265358979, b REAL DEFAULT 0.1234567890123, c NUMERIC DEFAULT 12345678901234567890.123, d REAL DEFAULT -2.718281828459045)`,
+		}},
 		{"rename-rewritten", []string{
 			"CREATE TABLE rn0 (id INTEGER PRIMARY KEY AUTOINCREMENT, v text CONSTRAINT rn_ck CHECK (v <> ''), p integer CONSTRAINT rn_fk REFERENCES rn0 (id))",
 			"ALTER TABLE rn0 RENAME TO rn",
